@@ -61,19 +61,26 @@ pub broadcast axiom fn axiom_parse_join(p: Seq<Seq<char>>) ensures #[trigger] pa
 // ---- the child process: its argument list decides what its stdout will carry ----
 pub struct ChildStdout { pub ghost out: Seq<u8> }
 pub struct ChildStderr { pub x: u8 }
-pub struct Child { pub stdout: Option<ChildStdout>, pub stderr: Option<ChildStderr>, pub ghost ok_out: Seq<u8> }
-pub mod process { use vstd::prelude::*; pub struct ExitStatus { pub x: u8 } impl ExitStatus { #[verifier::external_body] pub fn success(&self) -> bool { unimplemented!() } } }
+pub struct Child { pub stdout: Option<ChildStdout>, pub stderr: Option<ChildStderr>, pub ghost ok_out: Seq<u8>, pub ghost exit_ok: bool }
+pub mod process { use vstd::prelude::*; pub struct ExitStatus { pub ghost ok: bool } impl ExitStatus { #[verifier::external_body] pub fn success(&self) -> (r: bool) ensures r == self.ok { unimplemented!() } } }
 impl ChildStdout {
     #[verifier::external_body] pub async fn read_to_end(&mut self, buf: &mut Vec<u8>) -> (r: Result<usize, std::io::Error>)
         ensures r is Ok ==> final(buf)@ == old(buf)@ + old(self).out { unimplemented!() }
 }
 impl ChildStderr { #[verifier::external_body] pub async fn read_to_string(&mut self, buf: &mut String) -> (r: Result<usize, std::io::Error>) { unimplemented!() } }
-impl Child { #[verifier::external_body] pub async fn wait(&mut self) -> (r: Result<process::ExitStatus, std::io::Error>) { unimplemented!() } }
+impl Child { #[verifier::external_body] pub async fn wait(&mut self) -> (r: Result<process::ExitStatus, std::io::Error>) ensures r matches Ok(st) ==> st.ok == old(self).exit_ok { unimplemented!() } }
+// whether `git <args>` run in `work` exits with status 0 (uninterpreted: a function of the repository)
+pub uninterp spec fn git_exit_ok(args: Seq<Seq<char>>, work: Seq<char>) -> bool;
+// the text a byte string denotes (String::from_utf8 / read_to_string) and str::trim
+pub uninterp spec fn text_of(b: Seq<u8>) -> Seq<char>;
+pub uninterp spec fn trimmed(s: Seq<char>) -> Seq<char>;
+pub assume_specification [str::trim] (s: &str) -> (r: &str) ensures r@ == trimmed(s@);
+impl ChildStdout { #[verifier::external_body] pub async fn read_to_string(&mut self, buf: &mut String) -> (r: Result<usize, std::io::Error>) ensures r is Ok ==> final(buf)@ == old(buf)@ + text_of(old(self).out) { unimplemented!() } }
 #[verifier::external_body] pub fn wait_err(e: std::io::Error) -> (r: MonorailError) ensures r is Generic { unimplemented!() }
 //!assumed src/core/git.rs get_git_cmd_child sha=e68c7f3bbcde4d18
 // ASSUMED (repo function, a tokio Command builder chain): runs `git <args>` in work_path with both outputs piped
 #[verifier::external_body] pub(crate) async fn get_git_cmd_child(git_path: &str, work_path: &path::Path, args: &[&str]) -> (r: Result<Child, MonorailError>)
-    ensures r matches Ok(c) ==> c.stdout is Some && c.stdout->Some_0.out == git_stdout(sv(args@), work_path@) { unimplemented!() }
+    ensures r matches Ok(c) ==> c.stdout is Some && c.stdout->Some_0.out == git_stdout(sv(args@), work_path@) && c.exit_ok == git_exit_ok(sv(args@), work_path@) { unimplemented!() }
 //!assumed src/core/git.rs parse_nul_paths sha=f1d1beaf155fd278
 // ASSUMED (repo function, iterator adapters): the non-empty NUL-separated fields as changes, in order
 #[verifier::external_body] fn parse_nul_paths(data: &[u8]) -> (r: Vec<Change>) ensures names(r@) == parse_nul(data@) { unimplemented!() }
@@ -185,6 +192,35 @@ pub(crate) async fn git_cmd_other_changes(
     let status = child.wait().await.map_err(wait_err)?;
     if status.success() {
         Ok(out)
+    } else {
+        Err(MonorailError::Generic(fmt_opaque()))
+    }
+}
+//!end
+//!fn src/core/git.rs git_cmd_rev_parse rules=R1,R12,R16 props=C19
+pub(crate) async fn git_cmd_rev_parse(
+    git_path: &str,
+    work_path: &path::Path,
+    reference: &str,
+) -> ⟦(res: ⟧Result<String, MonorailError>⟦)⟧
+@    ensures
+@        // C19: the commit recorded for a reference is what `git rev-parse <reference>` printed - and only when git SUCCEEDED: a reference
+@        // that does not resolve (an unborn HEAD echoes back the word it was given, with a non-zero exit status) is an error, never an id
+@        res matches Ok(s) ==> git_exit_ok(seq!["rev-parse"@, reference@], work_path@) && s@ == trimmed(text_of(git_stdout(seq!["rev-parse"@, reference@], work_path@))), // [C19]
+{
+    let mut child = get_git_cmd_child(git_path, work_path, &["rev-parse", reference]).await?;
+@    assert(sv((&["rev-parse", reference])@) =~= seq!["rev-parse"@, reference@]);
+    let mut stdout_string = String::new();
+    if let Some(mut stdout) = child.stdout.take() {
+        stdout.read_to_string(&mut stdout_string).await?;
+    }
+    let mut stderr_string = String::new();
+    if let Some(mut stderr) = child.stderr.take() {
+        stderr.read_to_string(&mut stderr_string).await?;
+    }
+    let status = child.wait().await.map_err(wait_err)?;
+    if status.success() {
+        Ok(stdout_string.trim().to_string())
     } else {
         Err(MonorailError::Generic(fmt_opaque()))
     }
